@@ -9,7 +9,8 @@
 EXTENDS Integers, Sequences, TLC, Json, IOUtils
 VARIABLES hist, done, held
 GenDepth == IF "GEN_DEPTH" \in DOMAIN IOEnv THEN atoi(IOEnv.GEN_DEPTH) ELSE 30
-ExtOps == <<"create", "create", "update", "td", "td", "destroy", "destroy", "addX", "remX", "addF", "addF", "remF">>
+(* setC / delC: the secondary input of the same id (configurations with an extra input kind; ignored by the others) *)
+ExtOps == <<"create", "create", "update", "td", "td", "destroy", "destroy", "addX", "remX", "addF", "addF", "remF", "setC", "setC", "delC">>
 FreeOps == ExtOps \o <<"arm", "release", "release", "failnext", "wait", "holdw", "holdw">>
 HeldOps == <<"stepw", "stepw", "stepw", "stepw", "stepw", "freew">> \o ExtOps
 Init == hist = <<>> /\ done = FALSE /\ held = FALSE
